@@ -68,8 +68,9 @@ class DetectVarNames( ast.NodeVisitor ):
 
       if low is not None and up is not None:
         slices.append( slice(low, up) )
-      # FIXME
-      # else:
+      else:
+        # bounds that are not known statically: any part of the signal
+        slices.append( "*" )
 
       nodelist.append( node )
       node = node.value
@@ -172,8 +173,9 @@ class DetectVarNames( ast.NodeVisitor ):
 
       if low is not None and up is not None:
         slices.append( slice(low, up) )
-      # FIXME
-      # else:
+      else:
+        # bounds that are not known statically: any part of the signal
+        slices.append( "*" )
 
       nodelist.append( node )
       node = node.value
